@@ -22,7 +22,7 @@ theorem skeleton_ok (s : Sched) (hsrc : s.src ≤ 2) (hn : 0 < s.n) : s.system.O
   init_thr := sys_init_thr s
   init_kind := sys_init_kind s
   init_mtx := fun k m => init_mtx_iff s.par k m
-  close_empty := fun _ => rfl
+  recvc_one := sys_recvc_one s hn
   start_head := sys_start_head s hn
   start_root := sys_start_root s hn
   kids_nodup := sys_kids_nodup s
